@@ -61,8 +61,9 @@ LEVEL_TEXT = (
     "Full proof (any commutative semiring / field; reals for sqrt): closed form of every accumulate history, additivity, "
     "permutation invariance, tensor = its feature vectors (any rank/axis via the strided view, with view/unview inverse and "
     "row-major stride lemma), apply formula for vector and tensor paths incl. the zero-variance branch, local mean 0 / "
-    "variance 1, dimension-mismatch ValueError, float64 tag, purity. Tie: exact-rational and Float correspondence "
-    "through accumulate/apply/save."
+    "variance 1, dimension-mismatch ValueError, float64 tag, purity. Tie: the per-coefficient arithmetic of accumulate / apply (vector, tensor, local) is regenerated from post.py on "
+    "every run and proved equal to the model's (StdArithTie); exact-rational and Float correspondence through "
+    "accumulate/apply/save for the array plumbing."
 )
 LEVEL_NOTE = (
     "Trusted: Lean kernel, std axioms, NumPy axis-reduction/broadcast semantics as the strided feature-vector view "
